@@ -44,6 +44,11 @@ func newCPURigOpt(debug bool) *cpuRig {
 	// a second emulator created afterwards and left alone (registers as at power-on, F = B0): an instruction of the
 	// first one must not depend on it (dispatch tables, condition predicates or flags shared between instances)
 	r.decoy = machine.New(machine.BlankROM(0x00), machine.Options{})
+	// the machine has a past: an OAM DMA has run to its end (a program that has used the DMA once is the normal case)
+	r.m.M.Write(0xff46, 0xc1)
+	for i := 0; i < 200; i++ {
+		r.m.M.EndMachineCycle()
+	}
 	memory.VerifBusObserver = func(mm *memory.Mapper, write bool, addr uint16, value uint8) {
 		if !r.cpuOn || mm != r.m.M {
 			return
